@@ -44,6 +44,7 @@ type c17Cfg struct {
 type c17Set struct {
 	names []string // relative to the set directory (PAR1: no sub-directories)
 	data  map[string][]byte
+	links map[string]string // name -> target: the input is a symbolic link to another input
 	s, r  int
 }
 
@@ -59,17 +60,24 @@ func c17Sets(format string) []c17Set {
 		}
 		return st
 	}
+	// set 4: one of the inputs is a symbolic link to another input (both are protected, under their own names)
+	linked := mk([]string{"a.dat", "b.dat", "link.dat"}, []int{300, 5000, 0}, 64, 3, 4)
+	delete(linked.data, "link.dat")
+	linked.links = map[string]string{"link.dat": "a.dat"}
 	if format == "par" {
+		linked.s = 0
 		return []c17Set{
 			mk([]string{"alpha.bin", "beta.bin", "gamma.bin"}, []int{100, 33, 700}, 0, 2, 1),
 			mk([]string{"x.dat", "y.dat", "z.dat", "w.dat"}, []int{1, 17000, 0, 300}, 0, 3, 2),
 			mk([]string{"only.one"}, []int{5000}, 0, 1, 3),
+			linked,
 		}
 	}
 	return []c17Set{
 		mk([]string{"alpha.bin", "sub/beta.bin", "sub/deep/gamma.bin", "delta", "eps.txt", "zeta/z"}, []int{100, 33, 700, 2500, 1, 4100}, 2000, 3, 1),
 		mk([]string{"x.dat", "y.dat", "d/z.dat", "w.dat"}, []int{1, 17000, 64, 300}, 100, 5, 2),
 		mk([]string{"only.one"}, []int{70000}, 2000, 2, 3),
+		linked,
 	}
 }
 
@@ -107,6 +115,12 @@ func runC17(args []string) error {
 		unrelated := filepath.Join(root, "elsewhere")
 		os.MkdirAll(unrelated, 0755)
 		for _, n := range st.names {
+			if tgt, ok := st.links[n]; ok {
+				if err := os.Symlink(tgt, filepath.Join(setdir, filepath.FromSlash(n))); err != nil {
+					return err
+				}
+				continue
+			}
 			if err := sandbox.WriteFile(filepath.Join(setdir, filepath.FromSlash(n)), st.data[n]); err != nil {
 				return err
 			}
